@@ -271,6 +271,10 @@ class FD:
                 return self.resolver(d)
             except KeyError:
                 pass
+        if d is not None and d.startswith('ast.') and d.count('.') == 1 and 'ast' not in env:
+            import ast as _ast
+            if isinstance(getattr(_ast, e.attr, None), type):
+                return d    # an ast class, kept symbolic ('ast.Lt'); isinstance hooks of the harness interpret it
         if d in ('sys.version_info', 'sys.platform') and 'sys' not in env:
             # the platform the analysis (and the pinned suite) runs on: CPython of /venv, not Skulpt
             import sys as _sys
@@ -581,6 +585,8 @@ class FD:
             if 'method:__getitem__' in base.attrs:
                 return base.attrs['method:__getitem__'](idx)
             raise Raised('TypeError', "%r object is not subscriptable" % base._name)
+        if isinstance(base, (set, frozenset, int, float, bool, type(None))):
+            raise Raised('TypeError', "%r object is not subscriptable" % type(base).__name__)
         raise Inconclusive('fdeval: subscript of %r' % (base,))
 
     def e_Call(self, e, env):
@@ -1195,6 +1201,7 @@ _BUILTINS = {
     'reversed': _concrete_seq(lambda x: list(reversed(x))),
     'sorted': _b_sorted,
     'next': _b_next,
+    'iter': _concrete_seq(lambda x: list(x)),
     'list': _concrete_seq(lambda *x: list(*x)),
     'tuple': _concrete_seq(lambda *x: tuple(*x)),
     'enumerate': _concrete_seq(lambda x, start=0: list(enumerate(x, start))),
